@@ -44,9 +44,12 @@ def poly_of_degree(k):
     return [COEFFS[(i * 2 + k) % len(COEFFS)] for i in range(k + 1)]
 
 
+PERM_ALL = 5
+
+
 def perms_of(n):
     idx = list(range(n))
-    if n <= 5:
+    if n <= PERM_ALL:
         return list(itertools.permutations(idx))
     out = []
     for r in range(n):
@@ -589,6 +592,14 @@ def run_history(block, ctx):
 
 
 def clauses(tier):
+    global PERM_ALL
+    PERM_ALL = 6 if tier == "thorough" else 5
+    if tier == "thorough":
+        for name in list(ROOT_TABLES):
+            xs, fn, pts = ROOT_TABLES[name]
+            lo, hi = min(xs), max(xs)
+            extra = [lo + (hi - lo) * k / 23.0 for k in range(24)]
+            ROOT_TABLES[name] = (xs, fn, sorted(set(list(pts) + extra)))
     return [
         Clause("tables", chunks(table_cases(), 48), run_tables,
                lambda c: [m for _, m, _ in check_table(c)], floor=1000),
